@@ -322,6 +322,14 @@ func fixedCases() []*caseT {
 		{Path: "/p", AE: gz, Opt: optT{ExclCT: []string{"image/jpeg"}}, Prog: []opT{{K: "H", Key: "Content-Type", Vals: []string{"image/jpeg"}}, {K: "W", Code: 200}, {K: "B", Data: []byte("fake image data")}}},
 		{Path: "/p", AE: gz, Prog: []opT{{K: "Sc", S: "f.txt", Data: bytes.Repeat([]byte("content "), 100)}}},
 		{Path: "/p", AE: sp("br, gzip"), Prog: []opT{{K: "Js", Code: 200, S: "value"}}},
+		// K15f: a handler panic behind [recovery, compression] before anything was written
+		{Path: "/p", AE: gz, Recovery: true, Prog: []opT{{K: "Pn"}}},
+		{Path: "/p", AE: gz, Recovery: true, Prog: []opT{{K: "H", Key: "X-Custom", Vals: []string{"v1"}}, {K: "St", Code: 202}, {K: "Pn"}}},
+		// K15m (open): the panic comes after the compressed stream has started
+		{Path: "/p", AE: gz, Recovery: true, Prog: []opT{ct, {K: "B", Data: []byte("partial")}, {K: "Pn"}}},
+		// informational status, handler-declared encoding
+		{Path: "/p", AE: gz, Prog: []opT{ct, {K: "W", Code: 103}, {K: "W", Code: 404}, {K: "B", Data: []byte("nf")}}},
+		{Path: "/p", AE: gz, Prog: []opT{{K: "H", Key: "Content-Encoding", Vals: []string{"x-own"}}, {K: "B", Data: []byte("<html>own")}}},
 		{Path: "/p", AE: gz, Opt: optT{MinSize: 600}, Prog: []opT{{K: "B", Data: append([]byte("<html>"), bytes.Repeat([]byte("x"), 300)...)}, {K: "B", Data: bytes.Repeat([]byte("y"), 400)}}},
 	}
 }
